@@ -2,6 +2,7 @@
 package checks
 
 import (
+	"github.com/AsaiYusuke/jsonpath"
 	"bytes"
 	"encoding/json"
 	"fmt"
@@ -83,6 +84,12 @@ func sameJSON(a, b interface{}) bool {
 			}
 		}
 		return true
+	}
+	// an Accessor produced by a user function: equal when it reads the same value and has a Set
+	// function or not (the closures themselves are never identical)
+	if x, ok := a.(jsonpath.Accessor); ok {
+		y, ok := b.(jsonpath.Accessor)
+		return ok && (x.Get == nil) == (y.Get == nil) && (x.Set == nil) == (y.Set == nil) && (x.Get == nil || sameJSON(x.Get(), y.Get()))
 	}
 	return sameOpaque(a, b)
 }
